@@ -10,7 +10,8 @@
  *                                          s:<buf>,.. / r:<buf>,.. (send through the layer)
  *   <id> S <G> <user> <pass> <addr> <op>.. socks5 (user/pass hex, '-' = NULL; addr = 6 or 18 bytes address+port)
  *   <id> P <compat> <op>...                pseudossl (0 = GOOGLE, 1 = MSOC)
- *   <id> H <G> <op>...                     http
+ *   <id> H <G> <op>...                     http; extra op c:<cap> = from now on the caller's receive buffer has <cap>
+ *                                          bytes (1..UPCAP; a fresh instance starts with UPCAP)
  * G = byte value every uninitialised heap / stack byte has in this case (the harness paints fresh g_malloc /
  * g_realloc memory and the stack below the call with it), so that behaviour which depends on uninitialised
  * memory is deterministic and can be compared with the model, which takes the same G.
@@ -28,6 +29,9 @@
  * later readable events of that instance are ignored (the agent drops such a socket).
  * A readable event (f:) appends the chunk to the base socket and calls recv_messages while bytes are pending,
  * stopping after an error return or a call that consumed nothing (level-triggered poll, as the agent does).
+ * For H the loop is the agent's read-until-would-block loop (component_io_cb): it also calls again after a call
+ * that delivered a message although the base socket is empty by then (the layer may hold bytes of its own), and
+ * ends with the call that returns 0 without consuming anything (LIVE if bytes were pending in the base socket).
  */
 #define socket_close turn_tcp_socket_close
 #include "socket/udp-turn-over-tcp.c"
@@ -128,15 +132,20 @@ static void parse_bufs (char *s, OutMsg *m)
 static void free_bufs (OutMsg *m) { for (int i = 0; i < m->n; i++) free (m->data[i]); }
 
 static guint8 *upbuf;
+static gsize up_cap;          /* size of the caller's buffer */
+static gboolean until_wouldblock;     /* read loop of the H layer, see above */
+/* the caller's buffer is a heap block of exactly up_cap bytes, so that ASan sees a write past it */
+static void set_cap (gsize n) { if (upbuf && n == up_cap) return; free (upbuf); up_cap = n; upbuf = malloc (n); }
 static gboolean dead_layer;   /* an error return ends the life of the socket: later readable events are ignored */
 
 /* one readable event on a layer over the scripted socket */
 static void feed (NiceSocket *layer, ScriptSock *ss, const guint8 *chunk, gsize n, int g)
 {
   ss_push (ss, chunk, n);
-  while (ss_pending (ss) > 0) {
+  gboolean more = FALSE;
+  while (ss_pending (ss) > 0 || more) {
     gsize p0 = ss_pending (ss);
-    GInputVector iv = { upbuf, UPCAP };
+    GInputVector iv = { upbuf, up_cap };
     NiceAddress from;
     NiceInputMessage im = { &iv, 1, &from, 0 };
     gint ret;
@@ -148,12 +157,18 @@ static void feed (NiceSocket *layer, ScriptSock *ss, const guint8 *chunk, gsize 
     HC_END;
     fprintf (of, " R%d", ret);
     if (ret == 1) {
-      gsize l = im.length > UPCAP ? UPCAP : im.length;
+      gsize l = im.length > up_cap ? up_cap : im.length;
       fprintf (of, ":%zu:", (size_t) im.length); o_hex (upbuf, l);
-      if (iv.size != UPCAP) fprintf (of, ":z%zu", (size_t) iv.size);
+      if (iv.size != up_cap) fprintf (of, ":z%zu", (size_t) iv.size);
     }
     if (ret < 0) { dead_layer = TRUE; break; }
-    if (ss_pending (ss) == p0) { fprintf (of, " LIVE"); dead_layer = TRUE; break; }
+    if (until_wouldblock) {
+      if (ret == 0 && ss_pending (ss) == p0) {
+        if (p0 > 0) { fprintf (of, " LIVE"); dead_layer = TRUE; }
+        break;
+      }
+      more = ret > 0;
+    } else if (ss_pending (ss) == p0) { fprintf (of, " LIVE"); dead_layer = TRUE; break; }
   }
 }
 
@@ -179,7 +194,8 @@ static gboolean run_layer_ops (NiceSocket *layer, ScriptSock *ss, char **sv, int
       gsize n; guint8 *b = hc_unhex (op + 2, &n);
       if (!dead_layer) feed (layer, ss, b, n, g);
       free (b);
-    } else if (op[0] == 's' && op[1] == ':') layer_send (layer, op + 2, FALSE);
+    } else if (op[0] == 'c' && op[1] == ':') { int c = atoi (op + 2); set_cap (c < 1 || c > UPCAP ? UPCAP : c); }
+    else if (op[0] == 's' && op[1] == ':') layer_send (layer, op + 2, FALSE);
     else if (op[0] == 'r' && op[1] == ':') layer_send (layer, op + 2, TRUE);
   }
   return FALSE;
@@ -200,7 +216,7 @@ int main (void)
   hc_init (); hc_catch_abort ();
   g_log_set_always_fatal (0);
   g_log_set_default_handler (quiet_log, NULL);
-  upbuf = malloc (UPCAP);
+  set_cap (UPCAP);
   while (fgets (line, sizeof line, stdin)) {
     char *sv, *id = strtok_r (line, " \n", &sv); if (!id) continue;
     char *cmd = strtok_r (NULL, " \n", &sv);
@@ -242,6 +258,7 @@ int main (void)
     } else {
       /* parameters of the layer, kept so that a "|" token can start over on a fresh instance */
       char *par[4] = { 0 }; int npar = !strcmp (cmd, "S") ? 4 : 1;
+      until_wouldblock = FALSE;
       for (int i = 0; i < npar; i++) par[i] = strtok_r (NULL, " \n", &sv);
       gboolean again = TRUE;
       while (again) {
@@ -249,6 +266,7 @@ int main (void)
         ss->on_read = on_read; ss->on_send = on_send; ss->on_fault = on_fault;
         int g = 0xbe;
         dead_layer = FALSE;
+        set_cap (UPCAP);
         if (!strcmp (cmd, "T")) {
           layer = nice_udp_turn_over_tcp_socket_new (base, atoi (par[0]));
           TurnTcpPriv *tp = layer->priv;
@@ -266,6 +284,7 @@ int main (void)
           layer = nice_pseudossl_socket_new (base, atoi (par[0]));
         } else if (!strcmp (cmd, "H")) {
           g = paint_g = atoi (par[0]);
+          until_wouldblock = TRUE;
           NiceAddress addr; nice_address_init (&addr); nice_address_set_from_string (&addr, "192.0.2.7"); nice_address_set_port (&addr, 3478);
           FILE *keep = of; of = fopen ("/dev/null", "w");       /* the CONNECT request text is not modelled */
           layer = nice_http_socket_new (base, &addr, NULL, NULL, NULL);
